@@ -357,6 +357,9 @@ def object_shapes(nm: Namer) -> Dict[str, Callable[[T, Ctx], Optional[T]]]:
             return Obj("dataclass", nm("O"), (F("a", x, cons=(("min_len", 2),)),))
         if isinstance(rx, Coll) and rx.kind in ("list", "seq"):
             return Obj("dataclass", nm("O"), (F("a", x, cons=(("max_items", 1),)),))
+        if isinstance(rx, (Lit, EnumT)):
+            # constraints on a literal / enum position: checked on the datum like anywhere else
+            return Obj("dataclass", nm("O"), (F("a", x, cons=(("max", 1), ("pattern", "^a"))),))
         return None
 
     def ser_methods(x, c):
